@@ -124,6 +124,13 @@ class Tv(V):
 
 
 @dataclass
+class Seq(V):
+    """sequence-typed value (list/tuple of a known element type)"""
+    path: str
+    elem: object = None     # parsed annotation of the elements
+
+
+@dataclass
 class Bsym(V):
     """symbolic boolean: disjunction of guard-conjunctions is not needed in gearpy; one guard"""
     guard: 'G'
@@ -421,6 +428,7 @@ class SX:
         self.call_hook = None              # callable(sx, call_node, func_value, args, kwargs, state, frame) -> list[(State,V)] | None
         self.nstates = 0
         self.div_zero_sites = []
+        self.variable_kinds = {}           # recorded-variable name -> quantity kind (typing of time_variables[...])
         self._field_types = {}
         self.trace_calls = []
 
@@ -447,7 +455,7 @@ class SX:
         if isinstance(ty, tuple) and ty[0] == 'obj':
             return Ov(path or name, ty[1], False)
         if isinstance(ty, tuple) and ty[0] == 'seq':
-            return Ov(path or name, None, False)
+            return Seq(path or name, ty[1])
         if ty == 'callable':
             return Fv(path or name)
         return Dyn(Rat.atom(name))
@@ -879,6 +887,8 @@ class SX:
             return True
         if isinstance(v, Ov):
             return G('truth', (v.path,))
+        if isinstance(v, Seq):
+            return G('truth', (v.path,))
         if isinstance(v, Dyn):
             return G('truth', (repr(v.term),))
         if isinstance(v, Unk):
@@ -1060,13 +1070,24 @@ class SX:
             if attr in ('value', 'unit'):
                 raise CannotDecide(f'.{attr} of a value of unknown kind: {self.ctx.show(obj.term)[:60]}')
             return [(st, Fv(f'bound:{attr}'))]
+        if isinstance(obj, Seq):
+            return [(st, Unk(f'{obj.path}.{attr}'))]
         if isinstance(obj, N) and attr == '__class__':
             return [(st, Cv('number'))]
         if isinstance(obj, (Unk, Fv, Sv, Tv, NoneV, N, Bsym, Bv, Uv)):
             return [(st, Unk(f'{self.show(obj)}.{attr}'))]
         raise CannotDecide(f'attribute {attr} of {obj!r}')
 
+    def leaf_exact(self, obj: Ov) -> Ov:
+        """an object whose static class is concrete and has no subclasses has exactly that class"""
+        if obj.exact or not obj.cls or obj.cls not in self.model.classes:
+            return obj
+        if self.model.subclasses(obj.cls, strict=True) or self.model.is_abstract_class(obj.cls):
+            return obj
+        return Ov(obj.path, obj.cls, True)
+
     def load_obj_attr(self, obj: Ov, attr, st, frame, node):
+        obj = self.leaf_exact(obj)
         cls = obj.cls
         if attr == '__class__':
             return [(st, Cv(cls or '?', of=obj.path))]
@@ -1081,13 +1102,27 @@ class SX:
             if ci and attr in ci.class_attrs:
                 return [(st, Unk(f'{owner}.{attr}'))]
             ty = self.field_type(owner, mangled)
-            name = f'{obj.path}.{mangled}'
+            name = f'{obj.path}.{self.canon_field(cls or owner, mangled)}'
+            if ty is None:
+                pub = self.field_public().get(mangled)
+                if pub:
+                    ty = self.member_type(cls or owner, pub)[0]
             return [(st, self.typed_atom(name, ty, name))]
         if (obj.path, attr) in st.heap:
             return [(st, st.heap[(obj.path, attr)])]
         if cls and obj.exact:
             m = self.model.find_member(cls, attr)
             if m is not None and m.kind == 'property':
+                tf = self.trivial_getter_field(cls, attr)
+                if tf is not None:
+                    if (obj.path, tf) in st.heap:
+                        return [(st, st.heap[(obj.path, tf)])]
+                    ty = self.member_type(cls, attr)[0]
+                    if ty is None:
+                        owner = tf[1:].split('__')[0]
+                        ty = self.field_type(owner, tf)
+                    name = f'{obj.path}.{attr}'
+                    return [(st, self.typed_atom(name, ty, name))]
                 if f'{m.cls}.{attr}' in self.opaque_calls or attr in self.opaque_calls:
                     ty, _ = self.member_type(cls, attr)
                     return [(st, self.typed_atom(f'{obj.path}.{attr}', ty))]
@@ -1115,16 +1150,78 @@ class SX:
                 return [(st, Unk(f'{ca_cls}.{attr}'))]
             name = f'{obj.path}.{attr}'
             return [(st, Dyn(Rat.atom(name)))]
-        # static type only: typed atom by public name
+        # static type only: typed atom, named by the private field every possible class resolves the
+        # getter to (so that narrowing the class later does not change the atom), else by public name
         ty, m = self.member_type(cls, attr) if cls else (None, None)
         if m is not None and m.kind != 'property':
             return [(st, Fv(f'bound:{attr}'))]
         name = f'{obj.path}.{attr}'
         return [(st, self.typed_atom(name, ty, name))]
 
+    def field_public(self):
+        """{mangled private field -> public property name} for properties that return the field unchanged"""
+        if '_fp' not in self._field_types:
+            mp = {}
+            for c, ci in self.model.classes.items():
+                for m in ci.members.values():
+                    if m.kind != 'property':
+                        continue
+                    body = strip_docstring(m.node.body)
+                    if len(body) == 1 and isinstance(body[0], ast.Return) and isinstance(body[0].value, ast.Attribute):
+                        v = body[0].value
+                        if isinstance(v.value, ast.Name) and v.value.id == 'self' and v.attr.startswith('__') \
+                                and not v.attr.endswith('__'):
+                            mp.setdefault(self.model.mangle(c, v.attr), m.name)
+            self._field_types['_fp'] = mp
+        return self._field_types['_fp']
+
+    def canon_field(self, cls, mangled):
+        """canonical attribute name of a private field of an object of class cls: the public property that
+        returns exactly this field for that class, else the mangled name"""
+        pub = self.field_public().get(mangled)
+        if pub and cls and self.trivial_getter_field(cls, pub) == mangled:
+            return pub
+        return mangled
+
+    def trivial_getter_field(self, cls, attr, depth=0):
+        """mangled field a property getter returns unchanged (through `return super().attr` chains)"""
+        m = self.model.find_member(cls, attr)
+        start = None
+        for _ in range(12):
+            if m is None or m.kind != 'property':
+                return None
+            body = strip_docstring(m.node.body)
+            if len(body) != 1 or not isinstance(body[0], ast.Return) or body[0].value is None:
+                return None
+            v = body[0].value
+            if isinstance(v, ast.Attribute) and isinstance(v.value, ast.Name) and v.value.id == 'self' \
+                    and v.attr.startswith('__') and not v.attr.endswith('__'):
+                return self.model.mangle(m.cls, v.attr)
+            if isinstance(v, ast.Attribute) and isinstance(v.value, ast.Call) and isinstance(v.value.func, ast.Name) \
+                    and v.value.func.id == 'super' and not v.value.args and v.attr == attr:
+                m = self.model.find_member(cls, attr, start_after=m.cls)
+                continue
+            return None
+        return None
+
+    def common_field(self, cls, attr):
+        key = ('cf', cls, attr)
+        if key in self._field_types:
+            return self._field_types[key]
+        cands = [c for c in self.model.subclasses(cls) if not self.model.is_abstract_class(c)
+                 and self.model.find_member(c, attr) is not None]
+        fields = {self.trivial_getter_field(c, attr) for c in cands}
+        out = fields.pop() if len(fields) == 1 else None
+        self._field_types[key] = out
+        return out
+
     def cast(self, v: Dyn, ty):
         if ty == 'num':
             return N(v.term)
+        if isinstance(ty, tuple) and ty[0] == 'seq':
+            return Seq(self.none_name(v) or self.ctx.show(v.term), ty[1])
+        if isinstance(ty, tuple) and ty[0] == 'obj':
+            return Ov(self.none_name(v) or self.ctx.show(v.term), ty[1], False)
         if isinstance(ty, tuple) and ty[0] == 'q':
             t = v.term
             sym = None
@@ -1290,7 +1387,7 @@ class SX:
                 if c == 1 and len(mono) == 1 and mono[0][1] == 1 and '#' not in mono[0][0]:
                     return mono[0][0]
             return None
-        if isinstance(v, Ov):
+        if isinstance(v, (Ov, Seq)):
             return v.path
         if isinstance(v, (Unk,)):
             return v.text
@@ -1317,6 +1414,14 @@ class SX:
             if isinstance(idx, Unk):
                 fam = base.text.split('.')[0]
                 return N(self.ufactor(fam, U(sym=idx.text)))
+        if isinstance(base, Seq):
+            if isinstance(idx, Unk) and idx.text.startswith('slice:'):
+                return Seq(f'{base.path}[{idx.text[6:]}]', base.elem)
+            name = f'{base.path}[{self.show(idx)}]'
+            return self.typed_atom(name, base.elem, name)
+        if isinstance(base, (Unk, Dyn)) and isinstance(idx, Sv) and self.show(base).endswith('time_variables') \
+                and idx.s in self.variable_kinds:
+            return Seq(f'{self.show(base)}[{idx.s!r}]', ('q', self.variable_kinds[idx.s]))
         if isinstance(base, Ov):
             return Ov(f'{base.path}[{self.show(idx)}]', None, False)
         return Unk(f'{self.show(base)}[{self.show(idx)}]')
@@ -1340,6 +1445,8 @@ class SX:
             return v.name
         if isinstance(v, Uv):
             return repr(v.unit)
+        if isinstance(v, Seq):
+            return v.path
         if isinstance(v, Tv):
             return '[' + ', '.join(self.show(i) for i in v.items) + ']'
         if isinstance(v, Bsym):
@@ -1692,6 +1799,7 @@ class SX:
         raise CannotDecide(f'method {attr} of a {q.kind}')
 
     def object_method(self, n, obj: Ov, attr, args, kwargs, st, frame) -> list:
+        obj = self.leaf_exact(obj)
         cls = obj.cls
         m = self.model.find_member(cls, attr) if cls else None
         key = f'{m.cls}.{attr}' if m else attr
